@@ -367,6 +367,14 @@ class FnTrans:
             return "%s.%s" % (t, fld), fty, p
         if k == "UnaryOperator":
             op = n["opcode"]
+            if op == "&":
+                lp = self.lvalue_path(inner[0])
+                if lp and len(lp[1]) == 1 and lp[1][0][0] == "idx" and lp[0] in self.job.get("elem_addr_as_index", []) and lp[0] in env \
+                        and self.elem_type(env[lp[0]]["type"])[0] == "Array":
+                    it, ity, ip = self.expr(lp[1][0][1], env)
+                    if ity != "Nat": raise Unsupported("%s: &%s[%s]" % (self.name, lp[0], ity))
+                    return it, "Nat", self.conj(ip, "decide (%s < %s.size)" % (it, env[lp[0]]["lean"]))
+                raise Unsupported("%s: address-of" % self.name)
             t, ty, p = self.expr(inner[0], env)
             if op == "-": return "(-%s)" % t, ty, p
             if op == "+": return t, ty, p
@@ -519,6 +527,8 @@ class FnTrans:
             base, tb, pb = self.expr(me["inner"][0], env)
             if mname == "size" and tb.startswith("List "):
                 return "%s.length" % base, "Nat", pb
+            if mname == "size" and self.elem_type(tb)[0] == "Array":
+                return "%s.size" % base, "Nat", pb
             raise Unsupported("%s: member call %s on %s" % (self.name, mname, tb))
         if k == "CallExpr":
             callee = inner[0]
@@ -621,6 +631,14 @@ class FnTrans:
             if a and b: return a, b
         return None
 
+    def is_push_back(self, n):
+        """(container lvalue node, argument node) of a statement `c.push_back(x)`"""
+        if n.get("kind") != "CXXMemberCallExpr": return None
+        inner = [c for c in n.get("inner", []) if isinstance(c, dict)]
+        me = inner[0]
+        if me.get("kind") != "MemberExpr" or me.get("name") != "push_back" or len(inner) != 2: return None
+        return me["inner"][0], inner[1]
+
     def assigned_vars(self, n, acc):
         k = n.get("kind")
         if k in ("BinaryOperator", "CompoundAssignOperator") and (n.get("opcode", "") == "=" or k == "CompoundAssignOperator"):
@@ -628,6 +646,10 @@ class FnTrans:
             if nm: acc.add(nm)
         sw = self.is_swap(n)
         if sw: acc.update(sw)
+        pb_ = self.is_push_back(n)
+        if pb_ is not None:
+            lp = self.lvalue_path(pb_[0])
+            if lp: acc.add(lp[0])
         if k == "UnaryOperator" and n.get("opcode") in ("++", "--"):
             t = n["inner"][0]
             while t.get("kind") in ("ParenExpr",): t = t["inner"][0]
@@ -759,6 +781,20 @@ class FnTrans:
             v, pp = nxt(env)
             head = "let %s : %s := %s\n%s" % (ln, ty, t, pad)
             return head + v, head + (("(%s) &&\n%s" % (p, pad)) if p else "") + pp
+        pb_ = self.is_push_back(s)
+        if pb_ is not None:
+            # c.push_back(x) on a container modelled as a List (c = a variable, or an element / field reached from one)
+            lp = self.lvalue_path(pb_[0])
+            if lp is None: raise Unsupported("%s: push_back target" % self.name)
+            ct, cty, cp = self.expr(pb_[0], env)
+            c_, ety = self.elem_type(cty)
+            if c_ != "List": raise Unsupported("%s: push_back on %s" % (self.name, cty))
+            xt, xty, xp = self.expr(pb_[1], env)
+            if xty != ety: raise Unsupported("%s: push_back of %s into %s" % (self.name, xty, cty))
+            env, h_, p_ = self.assign_to(pb_[0], "(%s ++ [%s])" % (ct, xt), cty, env, pad)
+            v, pp = nxt(env)
+            pc = self.conj(cp, xp, p_)
+            return h_ + v, (("(%s) &&\n%s" % (pc, pad)) if pc else "") + h_ + pp
         sw = self.is_swap(s)
         if sw is not None:
             a, b = sw
